@@ -1,7 +1,40 @@
-import AnsiProofs.Lemmas.Tokenize
+import AnsiProofs.Props.C19
 import AnsiModel.Generated.Methods.ParsePrims
 import AnsiModel.Generated.Methods.Tokenize
 import AnsiModel.Generated.Methods.FormattedStr
+
+/-
+  Property C19, part c — the *generated* (statement-by-statement translated, `harness/pyparse.py`)
+  `ParsedAnsiControlSequenceString.__init__` (the tokenizer) and `.formatted_str` of ansi_parsing.py compute
+  exactly what the hand-written model says (`tokenize` = `tokLoop … .text s {}`, `Parsed.formatted` of
+  `AnsiModel/Parse.lean`): the same unformatted text, the same sequences in the same order under the same
+  positions, for every input string, both values of `allow_empty_terminator` and every
+  `acceptable_terminators` (absent or any string).  Nothing raises: `s[i]` (IndexError), `ord(s[i])`
+  (TypeError), `self.sequences[idx].append(…)` (KeyError), a negative key (outside the model).
+
+  The object is the model's `Parsed` itself (`_s` = `text`, `sequences` = `seqs`: a dict kept in insertion
+  order, `PyParse.seqsHas/seqsAppend/seqsSet/seqsItems`).  The two nested `while` loops of the source are
+  `PyParse.whileM fuel_ <test> <round> <state>`; `fuel_` bounds the number of rounds (running out is
+  `Exc.outside`).  `tokenize_is_code` holds for every `fuel_ ≥ len(s)`: that the scan ends within `len(s)`
+  rounds is proved, not assumed (`tokenize_needs_fuel`: with less it does run out).
+
+  How the index-driven scan meets the model's mode machine (`tokLoop`, structural on the rest of the input):
+  * `C19c.L`, nothing generated mentioned:
+    - `tokLoop_params`: in parameter mode the model takes a `takeWhile` of non-terminators, then the
+      terminator (or the end); `tokRound allow acc rest p`: one round of the outer loop on the rest of the
+      input — how many characters it takes and the object afterwards; `tokLoop_round`: the model is
+      `tokRound`, then itself on what is left;
+    - `Inv p` (keys strictly ascending, none beyond the text): under it `idx in self.sequences` with
+      `idx = len(self._s)` means "the last key is idx" — `append_present`, `set_absent` against the model's
+      `record` (which looks at the last entry only), `inv_record`, `inv_push`;
+    - `accept_*`: the acceptance condition with `in` as the substring test of `str`, on a terminator of at
+      most one character, is `acceptSeq`;
+    - `ScanSpec`/`scan_loop` (inner `while`, state `(i, current_seq)`), `RoundSpec`/`outer_loop` (outer
+      `while`, state `(i, self)`): tests and rounds given as arbitrary functions meeting a spec stated on
+      `s = pre ++ rest`, `i = len(pre)`;
+    - `FmtSpec`/`fold_fmt`, `ValSpec`/`fold_vals`, `slice_nat`: the two `for` loops of `formatted_str`.
+  * `C19c`: the theorems over `Gen.tokenizeInit`, `Gen.formattedStr`.
+-/
 
 -- some simp arguments are there for other shapes the source may take
 set_option linter.unusedSimpArgs false
@@ -29,8 +62,12 @@ theorem slice_mid {α : Type} (A B : List α) (k : Nat) :
   simp only [h1, h2, if_false, Int.toNat_natCast, h3, List.length_append]
   rw [Nat.min_eq_left (by omega)]
   rw [List.take_append, List.drop_append]
-  simp [List.take_take]
-  omega
+  simp only [Nat.sub_self, List.drop_zero, Nat.add_sub_cancel_left, Nat.add_min_add_left]
+  have e1 : List.take (A.length + min k B.length) A = A := List.take_of_length_le (by omega)
+  rw [e1, List.drop_length, List.nil_append]
+  rcases Nat.le_total k B.length with h | h
+  · rw [Nat.min_eq_left h]; simp
+  · rw [Nat.min_eq_right h, List.take_of_length_le (Nat.le_refl _), List.take_of_length_le h]; simp
 
 theorem ordStr_one (c : Char) : PyParse.ordStr [c] = .ok (c.toNat : Int) := rfl
 
@@ -45,5 +82,593 @@ theorem while_step {σ : Type} {cond : σ → Except Exc Bool} {body : σ → Ex
     PyParse.whileM (fuel + 1) cond body st = PyParse.whileM fuel cond body st' := by
   simp [PyParse.whileM, hc, hb, bindOk]
 
+/-! ### the model's mode machine, one token at a time -/
+
+def isParam (c : Char) : Bool := !isTerm c
+
+/-- what the tokenizer does with a candidate sequence: recorded, or put back into the text -/
+def finish (allow : Bool) (acc : Option Str) (ps term : Str) (p : Parsed) : Parsed :=
+  if acceptSeq allow acc term then p.record ⟨ps, term⟩ else p.push (Gen.csi ++ ps ++ term)
+
+/-- the model in parameter mode: the parameter characters are a `takeWhile`, the terminator what follows -/
+theorem tokLoop_params (allow : Bool) (acc : Option Str) :
+    ∀ (r ps : Str) (o : Parsed),
+      tokLoop allow acc (.params ps) r o =
+        match r.dropWhile isParam with
+        | [] => finish allow acc (ps ++ r.takeWhile isParam) [] o
+        | c :: r' => tokLoop allow acc .text r' (finish allow acc (ps ++ r.takeWhile isParam) [c] o)
+  | [], ps, o => by
+    rw [tokLoop]
+    simp [finish]
+  | c :: r, ps, o => by
+    rw [tokLoop]
+    by_cases hc : isTerm c = true
+    · have hp : isParam c = false := by simp [isParam, hc]
+      simp only [hc, ↓reduceIte, List.dropWhile_cons, hp, List.takeWhile_cons, Bool.false_eq_true, List.append_nil, finish]
+      split <;> simp
+    · have hp : isParam c = true := by simp [isParam, hc]
+      simp only [hc, Bool.false_eq_true, ↓reduceIte, List.dropWhile_cons, hp, List.takeWhile_cons]
+      rw [tokLoop_params allow acc r (ps ++ [c]) o]
+      simp
+
+/-- one round of the scan on the remaining input `rest` (not empty): how many characters it takes, and the
+    object afterwards -/
+def tokRound (allow : Bool) (acc : Option Str) (rest : Str) (p : Parsed) : Nat × Parsed :=
+  if rest.take 2 = Gen.csi then
+    match (rest.drop 2).dropWhile isParam with
+    | [] => (2 + ((rest.drop 2).takeWhile isParam).length, finish allow acc ((rest.drop 2).takeWhile isParam) [] p)
+    | c :: _ => (2 + ((rest.drop 2).takeWhile isParam).length + 1, finish allow acc ((rest.drop 2).takeWhile isParam) [c] p)
+  else (1, p.push (rest.take 1))
+
+theorem takeWhile_dropWhile_length {α : Type} (q : α → Bool) (l : List α) :
+    (l.takeWhile q).length + (l.dropWhile q).length = l.length := by
+  rw [← List.length_append, List.takeWhile_append_dropWhile]
+
+theorem tokRound_pos (allow : Bool) (acc : Option Str) (rest : Str) (p : Parsed) :
+    1 ≤ (tokRound allow acc rest p).1 := by
+  unfold tokRound
+  split
+  · split <;> simp <;> omega
+  · simp
+
+theorem tokRound_le (allow : Bool) (acc : Option Str) (rest : Str) (p : Parsed) (h : rest ≠ []) :
+    (tokRound allow acc rest p).1 ≤ rest.length := by
+  unfold tokRound
+  split
+  · rename_i hcsi
+    have h2 : 2 ≤ rest.length := by
+      have := congrArg List.length hcsi
+      rw [csi_eq] at this
+      simp at this
+      omega
+    have hl := takeWhile_dropWhile_length isParam (rest.drop 2)
+    simp only [List.length_drop] at hl
+    split
+    · rename_i hd; rw [hd] at hl; simp at hl ⊢; omega
+    · rename_i c r hd; rw [hd] at hl; simp at hl ⊢; omega
+  · cases rest with
+    | nil => exact absurd rfl h
+    | cons c r => simp
+
+/-- THE MODEL, ROUND BY ROUND: on a non-empty rest, `tokLoop` in text mode is one `tokRound`, then `tokLoop` again -/
+theorem tokLoop_round (allow : Bool) (acc : Option Str) (rest : Str) (p : Parsed) (h : rest ≠ []) :
+    tokLoop allow acc .text rest p =
+      tokLoop allow acc .text (rest.drop (tokRound allow acc rest p).1) (tokRound allow acc rest p).2 := by
+  unfold tokRound
+  by_cases hcsi : rest.take 2 = Gen.csi
+  · rw [if_pos hcsi]
+    rw [csi_eq] at hcsi
+    obtain ⟨r, rfl⟩ : ∃ r, rest = '\x1b' :: '[' :: r := by
+      match rest, hcsi with
+      | a :: b :: r, hcsi =>
+        simp only [List.take_succ_cons, List.take_zero, List.cons.injEq, and_true] at hcsi
+        exact ⟨r, by rw [hcsi.1, hcsi.2]⟩
+    rw [tokLoop, tokLoop_params]
+    simp only [List.drop_succ_cons, List.drop_zero, List.nil_append]
+    have hr := List.takeWhile_append_dropWhile (p := isParam) (l := r)
+    generalize r.takeWhile isParam = tw at hr ⊢
+    cases hd : r.dropWhile isParam with
+    | nil =>
+      rw [hd, List.append_nil] at hr
+      subst hr
+      simp only []
+      have : List.drop (2 + tw.length) ('\x1b' :: '[' :: tw) = [] := by
+        apply List.drop_of_length_le; simp; omega
+      rw [this, tokLoop]
+    | cons c r' =>
+      rw [hd] at hr
+      subst hr
+      simp only []
+      have : List.drop (2 + tw.length + 1) ('\x1b' :: '[' :: (tw ++ c :: r')) = r' := by
+        have e : 2 + tw.length + 1 = (tw.length + 1) + 1 + 1 := by omega
+        rw [e, List.drop_succ_cons, List.drop_succ_cons]
+        have e2 : tw ++ c :: r' = (tw ++ [c]) ++ r' := by simp
+        rw [e2, List.drop_left' (by simp)]
+      rw [this]
+  · rw [if_neg hcsi]
+    rw [csi_eq] at hcsi
+    cases rest with
+    | nil => exact absurd rfl h
+    | cons c r =>
+      simp only [List.drop_succ_cons, List.drop_zero, List.take_succ_cons, List.take_zero]
+      rw [tokLoop]
+      intro rest' heq hr
+      apply hcsi
+      rw [heq, hr]
+      rfl
+
+/-! ### the acceptance test -/
+
+theorem findFrom_nil_sub : ∀ (s : Str) (pos : Nat), (Py.findFrom s [] pos 0).isSome = true
+  | [], pos => by simp [Py.findFrom]
+  | c :: s, pos => by simp [Py.findFrom, Py.startsWith]
+
+theorem findFrom_one (c : Char) : ∀ (s : Str) (pos : Nat), (Py.findFrom s [c] pos 0).isSome = s.contains c
+  | [], pos => by simp [Py.findFrom]
+  | d :: s, pos => by
+    unfold Py.findFrom
+    by_cases h : d = c
+    · subst h; simp [Py.startsWith]
+    · have h' : (d == c) = false := by simpa using h
+      have h'' : ¬ (c = d) := fun e => h e.symm
+      simp only [Nat.zero_le, true_and, Py.startsWith, h', Bool.false_and, Bool.false_eq_true, ↓reduceIte]
+      rw [findFrom_one c s (pos + 1)]
+      simp [h'']
+
+theorem strIn_nil (s : Str) : PyParse.strIn [] s = true := by
+  unfold PyParse.strIn Py.find; exact findFrom_nil_sub s 0
+
+theorem strIn_one (c : Char) (s : Str) : PyParse.strIn [c] s = s.contains c := by
+  unfold PyParse.strIn Py.find; exact findFrom_one c s 0
+
+/-- `(terminator or allow_empty_terminator) and (acceptable_terminators is None or terminator in
+    acceptable_terminators)`, with `in` the substring test of `str`, is the model's `acceptSeq` on a
+    terminator of at most one character: the four cases -/
+theorem accept_none_nil (allow : Bool) : acceptSeq allow none [] = allow := by simp [acceptSeq]
+theorem accept_none_one (allow : Bool) (c : Char) : acceptSeq allow none [c] = true := by simp [acceptSeq]
+theorem accept_some_nil (allow : Bool) (a : Str) : acceptSeq allow (some a) [] = (allow && PyParse.strIn [] a) := by
+  simp [acceptSeq, strIn_nil]
+theorem accept_some_one (allow : Bool) (a : Str) (c : Char) : acceptSeq allow (some a) [c] = PyParse.strIn [c] a := by
+  simp [acceptSeq, strIn_one]
+
+/-! ### the dictionary `sequences` -/
+
+/-- keys strictly ascending, none beyond the end of the text: what makes "`idx in self.sequences`" the
+    same as "the last key is `idx`" -/
+def Inv (p : Parsed) : Prop := p.seqs.Pairwise (fun a b => a.1 < b.1) ∧ Parsed.KeysLe p
+
+theorem inv_empty : Inv {} := ⟨List.Pairwise.nil, Parsed.keysLe_empty⟩
+
+theorem inv_push {p : Parsed} (h : Inv p) (s : Str) : Inv (p.push s) := ⟨h.1, Parsed.keysLe_push h.2 s⟩
+
+theorem seqsHas_nat (d : List (Nat × List CtlSeq)) (k : Nat) :
+    PyParse.seqsHas d (k : Int) = d.any (fun kv => kv.1 == k) := by
+  simp [PyParse.seqsHas]
+
+/-- with ascending keys ending in `(k, l)`, no earlier key is `k` -/
+theorem init_ne {init : List (Nat × List CtlSeq)} {k : Nat} {l : List CtlSeq}
+    (h : (init ++ [(k, l)]).Pairwise (fun a b => a.1 < b.1)) : ∀ kv ∈ init, kv.1 < k := by
+  intro kv hkv
+  exact (List.pairwise_append.mp h).2.2 kv hkv (k, l) (by simp)
+
+theorem inv_record {p : Parsed} (h : Inv p) (c : CtlSeq) : Inv (p.record c) := by
+  refine ⟨?_, Parsed.keysLe_record h.2 c⟩
+  obtain ⟨hs, hk⟩ := h
+  rcases Parsed.record_cases p c with ⟨init, l, hseq, hr⟩ | ⟨hcase, hr⟩
+  · rw [hr]; simp only
+    rw [hseq] at hs
+    rw [List.pairwise_append] at hs ⊢
+    exact ⟨hs.1, by simp, fun a ha b hb => by
+      have := hs.2.2 a ha (p.text.length, l) (by simp)
+      simp at hb; rw [hb]; exact this⟩
+  · rw [hr]; simp only
+    rw [List.pairwise_append]
+    refine ⟨hs, by simp, ?_⟩
+    intro a ha b hb
+    simp at hb; rw [hb]; simp only
+    rcases hcase with hnil | ⟨init, k, l, hseq, hne⟩
+    · rw [hnil] at ha; cases ha
+    · have hkl : k ≤ p.text.length := hk (k, l) (by rw [hseq]; simp)
+      rw [hseq] at ha hs
+      simp only [List.mem_append, List.mem_singleton] at ha
+      rcases ha with ha | ha
+      · have := init_ne hs a ha; omega
+      · rw [ha]; simp only; omega
+
+/-- `idx in self.sequences` and `self.sequences[idx].append(x)`, at `idx = len(self._s)` -/
+theorem append_present {p : Parsed} (h : Inv p) (c : CtlSeq)
+    (hh : PyParse.seqsHas p.seqs (p.text.length : Int) = true) :
+    PyParse.seqsAppend p.seqs (p.text.length : Int) c = .ok (p.record c).seqs := by
+  unfold PyParse.seqsAppend
+  rw [if_pos hh]
+  rw [seqsHas_nat] at hh
+  rcases Parsed.record_cases p c with ⟨init, l, hseq, hr⟩ | ⟨hcase, hr⟩
+  · rw [hr, hseq]
+    have hi := init_ne (hseq ▸ h.1)
+    simp only [Int.toNat_natCast, List.map_append, List.map_cons, List.map_nil, beq_self_eq_true, ↓reduceIte]
+    congr 2
+    have hid : ∀ kv ∈ init, (if (kv.1 == p.text.length) = true then (kv.1, kv.2 ++ [c]) else kv) = id kv := by
+      intro kv hkv
+      have := hi kv hkv
+      have hne : (kv.1 == p.text.length) = false := by simp; omega
+      simp [hne]
+    rw [List.map_congr_left hid, List.map_id]
+  · exfalso
+    rcases hcase with hnil | ⟨init, k, l, hseq, hne⟩
+    · rw [hnil] at hh; simp at hh
+    · have hkl : k ≤ p.text.length := h.2 (k, l) (by rw [hseq]; simp)
+      have hi := init_ne (hseq ▸ h.1)
+      rw [hseq] at hh
+      simp only [List.any_append, List.any_cons, List.any_nil, Bool.or_false, Bool.or_eq_true, List.any_eq_true, beq_iff_eq] at hh
+      rcases hh with ⟨kv, hkv, he⟩ | he
+      · have := hi kv hkv; omega
+      · exact hne he
+
+/-- `idx not in self.sequences` and `self.sequences[idx] = [x]`, at `idx = len(self._s)` -/
+theorem set_absent {p : Parsed} (_h : Inv p) (c : CtlSeq)
+    (hh : PyParse.seqsHas p.seqs (p.text.length : Int) = false) :
+    PyParse.seqsSet p.seqs (p.text.length : Int) [c] = .ok (p.record c).seqs := by
+  unfold PyParse.seqsSet
+  have h0 : ¬ ((p.text.length : Int) < 0) := by omega
+  rw [if_neg h0, hh]
+  simp only [Bool.false_eq_true, ↓reduceIte, Int.toNat_natCast]
+  rw [seqsHas_nat] at hh
+  rcases Parsed.record_cases p c with ⟨init, l, hseq, hr⟩ | ⟨hcase, hr⟩
+  · exfalso
+    rw [hseq] at hh
+    simp at hh
+  · rw [hr]
+
+/-- `record` changes the dictionary only -/
+theorem record_with (p : Parsed) (c : CtlSeq) : ({ p with seqs := (p.record c).seqs } : Parsed) = p.record c := by
+  rcases Parsed.record_cases p c with ⟨init, l, hseq, hr⟩ | ⟨hcase, hr⟩ <;> rw [hr]
+
+theorem push_with (p : Parsed) (s : Str) : ({ p with text := p.text ++ s } : Parsed) = p.push s := rfl
+
+/-! ### the inner `while`: the parameter characters -/
+
+/-- what the test and a round of the inner loop have to do, whatever they look like; the state is
+    `(i, current_seq)`, the cursor `i` given by what has been read (`pre`) -/
+def ScanSpec (s : Str) (cond : Int × Str → Except Exc Bool) (body : Int × Str → Except Exc (Int × Str)) : Prop :=
+  ∀ (pre rest cs : Str), s = pre ++ rest →
+    cond ((pre.length : Int), cs) = .ok (match rest with | [] => false | c :: _ => isParam c) ∧
+    ∀ c rest', rest = c :: rest' → body ((pre.length : Int), cs) = .ok (((pre ++ [c]).length : Int), cs ++ [c])
+
+theorem scan_loop {s : Str} {cond : Int × Str → Except Exc Bool} {body : Int × Str → Except Exc (Int × Str)}
+    (h : ScanSpec s cond body) :
+    ∀ (rest pre cs : Str) (fuel : Nat), s = pre ++ rest → rest.length ≤ fuel →
+      PyParse.whileM fuel cond body ((pre.length : Int), cs) =
+        .ok (((pre ++ rest.takeWhile isParam).length : Int), cs ++ rest.takeWhile isParam)
+  | [], pre, cs, fuel, hs, _ => by
+    rw [while_done ((h pre [] cs hs).1)]
+    simp
+  | c :: rest', pre, cs, fuel, hs, hf => by
+    obtain ⟨hc, hb⟩ := h pre (c :: rest') cs hs
+    simp only [] at hc
+    cases hp : isParam c with
+    | false =>
+      rw [hp] at hc
+      rw [while_done hc]
+      simp [hp]
+    | true =>
+      rw [hp] at hc
+      obtain ⟨f, rfl⟩ : ∃ f, fuel = f + 1 := ⟨fuel - 1, by simp at hf; omega⟩
+      rw [while_step hc (hb c rest' rfl)]
+      rw [scan_loop h rest' (pre ++ [c]) (cs ++ [c]) f (by simp [hs]) (by simp at hf; omega)]
+      simp [hp]
+
+/-! ### the outer `while` -/
+
+theorem inv_round {allow : Bool} {acc : Option Str} {rest : Str} {p : Parsed} (h : Inv p) :
+    Inv (tokRound allow acc rest p).2 := by
+  unfold tokRound finish
+  split
+  · split <;> (simp only []; split) <;> first | exact inv_record h _ | exact inv_push h _
+  · exact inv_push h _
+
+/-- what the test and a round of the outer loop have to do, whatever they look like; the state is `(i, self)` -/
+def RoundSpec (s : Str) (allow : Bool) (acc : Option Str)
+    (cond : Int × Parsed → Except Exc Bool) (body : Int × Parsed → Except Exc (Int × Parsed)) : Prop :=
+  ∀ (pre rest : Str) (p : Parsed), s = pre ++ rest → Inv p →
+    cond ((pre.length : Int), p) = .ok (!rest.isEmpty) ∧
+    (rest ≠ [] → body ((pre.length : Int), p) =
+      .ok (((pre.length + (tokRound allow acc rest p).1 : Nat) : Int), (tokRound allow acc rest p).2))
+
+/-- THE SCAN: tests and rounds that meet `RoundSpec` compute the model's `tokLoop`, given fuel for one round
+    per character -/
+theorem outer_loop {s : Str} {allow : Bool} {acc : Option Str}
+    {cond : Int × Parsed → Except Exc Bool} {body : Int × Parsed → Except Exc (Int × Parsed)}
+    (h : RoundSpec s allow acc cond body) :
+    ∀ (n : Nat) (rest pre : Str) (p : Parsed) (fuel : Nat), rest.length ≤ n → s = pre ++ rest → Inv p →
+      rest.length ≤ fuel →
+      PyParse.whileM fuel cond body ((pre.length : Int), p) = .ok ((s.length : Int), tokLoop allow acc .text rest p) := by
+  intro n
+  induction n with
+  | zero =>
+    intro rest pre p fuel hn hs hi _
+    have hr : rest = [] := List.eq_nil_of_length_eq_zero (by omega)
+    subst hr
+    rw [while_done ((h pre [] p hs hi).1), tokLoop]
+    simp [hs]
+  | succ n ih =>
+    intro rest pre p fuel hn hs hi hf
+    by_cases hr : rest = []
+    · subst hr
+      rw [while_done ((h pre [] p hs hi).1), tokLoop]
+      simp [hs]
+    · obtain ⟨hc, hb⟩ := h pre rest p hs hi
+      have hne : (!rest.isEmpty) = true := by cases rest with | nil => exact absurd rfl hr | cons _ _ => rfl
+      rw [hne] at hc
+      have hlen : 1 ≤ rest.length := by cases rest with | nil => exact absurd rfl hr | cons _ _ => simp
+      obtain ⟨f, rfl⟩ : ∃ f, fuel = f + 1 := ⟨fuel - 1, by omega⟩
+      rw [while_step hc (hb hr)]
+      have hpos := tokRound_pos allow acc rest p
+      have hle := tokRound_le allow acc rest p hr
+      have hidx : pre.length + (tokRound allow acc rest p).1 = (pre ++ rest.take (tokRound allow acc rest p).1).length := by
+        simp; omega
+      rw [hidx]
+      rw [ih (rest.drop (tokRound allow acc rest p).1) (pre ++ rest.take (tokRound allow acc rest p).1)
+        (tokRound allow acc rest p).2 f (by simp; omega) (by simp [hs]) (inv_round hi) (by simp; omega)]
+      rw [← tokLoop_round allow acc rest p hr]
+
+/-! ### the same facts with the cursor given as any `int` known to be the length of what was read -/
+
+theorem getIdx_at {α : Type} {l : List α} {i : Int} (A : List α) (c : α) (B : List α)
+    (hl : l = A ++ c :: B) (hi : i = (A.length : Int)) : Py.getIdx l i = .ok c := by
+  rw [hl, hi]; exact getIdx_mid A c B
+
+theorem slice_at {α : Type} {l : List α} {i j : Int} (A B : List α) (k : Nat)
+    (hl : l = A ++ B) (hi : i = (A.length : Int)) (hj : j = (A.length : Int) + (k : Int)) :
+    Py.listSlice l (some i) (some j) = B.take k := by
+  rw [hl, hi, hj]; exact slice_mid A B k
+
+theorem scan_loop_at {s : Str} {cond : Int × Str → Except Exc Bool} {body : Int × Str → Except Exc (Int × Str)}
+    (h : ScanSpec s cond body) (rest pre cs : Str) (fuel : Nat) (i : Int)
+    (hs : s = pre ++ rest) (hf : rest.length ≤ fuel) (hi : i = (pre.length : Int)) :
+    PyParse.whileM fuel cond body (i, cs) =
+      .ok (((pre ++ rest.takeWhile isParam).length : Int), cs ++ rest.takeWhile isParam) := by
+  rw [hi]; exact scan_loop h rest pre cs fuel hs hf
+
+theorem isTerm_iff (c : Char) : isTerm c = true ↔ (Gen.termLo ≤ c.toNat ∧ c.toNat ≤ Gen.termHi) := by
+  simp [isTerm]
+
+/-! ### `formatted_str` -/
+
+theorem slice_nat {α : Type} (t : List α) (a b : Nat) :
+    Py.listSlice t (some (a : Int)) (some (b : Int)) = (t.take b).drop a := by
+  unfold Py.listSlice Py.listIdx
+  have h1 : ¬ ((a : Int) < 0) := by omega
+  have h2 : ¬ ((b : Int) < 0) := by omega
+  simp only [h1, h2, if_false, Int.toNat_natCast]
+  rcases Nat.le_total b t.length with hb | hb
+  · rw [Nat.min_eq_left hb]
+    rcases Nat.le_total a t.length with ha | ha
+    · rw [Nat.min_eq_left ha]
+    · rw [Nat.min_eq_right ha, List.drop_of_length_le (by simp; omega), List.drop_of_length_le (by simp; omega)]
+  · rw [Nat.min_eq_right hb, List.take_of_length_le (Nat.le_refl _), List.take_of_length_le hb]
+    rcases Nat.le_total a t.length with ha | ha
+    · rw [Nat.min_eq_left ha]
+    · rw [Nat.min_eq_right ha, List.drop_length, List.drop_of_length_le ha]
+
+theorem slice_from {α : Type} (t : List α) (a : Nat) : Py.listSlice t (some (a : Int)) none = t.drop a := by
+  unfold Py.listSlice Py.listIdx
+  have h1 : ¬ ((a : Int) < 0) := by omega
+  simp only [h1, if_false, Int.toNat_natCast, List.take_length]
+  rcases Nat.le_total a t.length with ha | ha
+  · rw [Nat.min_eq_left ha]
+  · rw [Nat.min_eq_right ha, List.drop_length, List.drop_of_length_le ha]
+
+/-- one recorded sequence as text -/
+def render (c : CtlSeq) : Str := Gen.csi ++ c.sequence ++ c.terminator
+
+def ValSpec (step : Str → CtlSeq → Except Exc Str) : Prop := ∀ o v, step o v = .ok (o ++ render v)
+
+theorem fold_vals {step : Str → CtlSeq → Except Exc Str} (h : ValSpec step) :
+    ∀ (vs : List CtlSeq) (o : Str), List.foldlM step o vs = .ok (o ++ (vs.map render).flatten)
+  | [], o => by simp; rfl
+  | v :: vs, o => by
+    rw [List.foldlM_cons, h]
+    show List.foldlM step (o ++ render v) vs = _
+    rw [fold_vals h vs]; simp
+
+/-- the model's round of `formatted_str` -/
+def fmtRound (text : Str) (acc : Str × Nat) (kv : Nat × List CtlSeq) : Str × Nat :=
+  (acc.1 ++ Parsed.formatted.pySliceL text acc.2 kv.1 ++ (kv.2.map render).flatten, kv.1)
+
+theorem formatted_eq (p : Parsed) :
+    p.formatted = (p.seqs.foldl (fmtRound p.text) ([], 0)).1 ++ p.text.drop (p.seqs.foldl (fmtRound p.text) ([], 0)).2 := rfl
+
+/-- what a round of the loop over `self.sequences.items()` has to do; the state is `(last_idx, out_str)` -/
+def FmtSpec (text : Str) (step : Int × Str → Int × List CtlSeq → Except Exc (Int × Str)) : Prop :=
+  ∀ (last : Nat) (o : Str) (k : Nat) (vs : List CtlSeq),
+    step ((last : Int), o) ((k : Int), vs) = .ok ((k : Int), (fmtRound text (o, last) (k, vs)).1)
+
+theorem fold_fmt {text : Str} {step : Int × Str → Int × List CtlSeq → Except Exc (Int × Str)} (h : FmtSpec text step) :
+    ∀ (seqs : List (Nat × List CtlSeq)) (last : Nat) (o : Str),
+      List.foldlM step ((last : Int), o) (PyParse.seqsItems seqs) =
+        .ok ((((seqs.foldl (fmtRound text) (o, last)).2 : Nat) : Int), (seqs.foldl (fmtRound text) (o, last)).1)
+  | [], last, o => rfl
+  | (k, vs) :: seqs, last, o => by
+    unfold PyParse.seqsItems
+    rw [List.map_cons, List.foldlM_cons, h]
+    show List.foldlM step ((k : Int), _) (PyParse.seqsItems seqs) = _
+    rw [fold_fmt h seqs k]
+    rfl
+
 end L
+open L
+
+theorem translated : (Gen.tokenizeInitOk && Gen.formattedStrOk) = true := by decide
+
+/-- THE GENERATED TOKENIZER IS THE MODEL'S `tokenize`: with fuel for one round per character the two `while`
+    loops end, nothing raises, and the object `__init__` leaves is the model's -/
+theorem tokenize_is_code (s : Str) (allow : Bool) (acc : Option Str) (fuel : Nat) (hf : s.length ≤ fuel) :
+    Gen.tokenizeInit fuel s allow acc = .ok (tokenize s allow acc) := by
+  unfold Gen.tokenizeInit tokenize
+  simp only []
+  have hcl : Gen.csi.length = 2 := by decide
+  rw [show ((0 : Int), ({ text := [], seqs := [] } : Parsed)) = (((([] : Str).length : Nat) : Int), ({} : Parsed)) from rfl]
+  rw [outer_loop (allow := allow) (acc := acc) ?spec s.length s [] {} fuel (Nat.le_refl _) rfl inv_empty hf]
+  case spec =>
+    intro pre rest p hs hi
+    subst hs
+    constructor
+    · cases rest <;> simp <;> omega
+    · intro hr
+      simp only []
+      rw [slice_mid pre rest Gen.csi.length, hcl]
+      unfold tokRound
+      by_cases hcsi : rest.take 2 = Gen.csi
+      · obtain ⟨r, rfl⟩ : ∃ r, rest = Gen.csi ++ r := ⟨rest.drop 2, by rw [← hcsi, List.take_append_drop]⟩
+        have htake : (Gen.csi ++ r).take 2 = Gen.csi := by rw [csi_eq]; rfl
+        have hdrop : (Gen.csi ++ r).drop 2 = r := by rw [csi_eq]; rfl
+        simp only [htake, hdrop, beq_self_eq_true, ↓reduceIte]
+        rw [scan_loop_at (s := pre ++ (Gen.csi ++ r)) ?sspec r (pre ++ Gen.csi) [] fuel _ ?hs ?hfuel ?hi]
+        case hs => simp
+        case hfuel => simp at hf; omega
+        case hi => simp [hcl]
+        case sspec =>
+          intro pre' rest' cs hs'
+          rw [hs']
+          constructor
+          · cases rest' with
+            | nil => simp
+            | cons c r'' =>
+              have hlt : (((pre'.length : Nat) : Int) < (((pre' ++ c :: r'').length : Nat) : Int)) := by simp; omega
+              simp only [hlt, decide_true, ↓reduceIte, getIdx_mid, ordStr_one, bindOk]
+              have hT := isTerm_iff c
+              unfold isParam
+              by_cases h : isTerm c = true
+              · have h' := hT.mp h
+                simp only [h, Bool.not_true]
+                repeat' split
+                all_goals first | rfl | (simp at *; omega)
+              · have h' : ¬ (Gen.termLo ≤ c.toNat ∧ c.toNat ≤ Gen.termHi) := fun x => h (hT.mpr x)
+                have h2 : isTerm c = false := by simpa using h
+                simp only [h2, Bool.not_false]
+                repeat' split
+                all_goals first | rfl | (simp at *; omega)
+          · intro c r'' hr''
+            subst hr''
+            simp only [getIdx_mid, bindOk]
+            simp
+        simp only [bindOk, List.nil_append]
+        -- `idx in self.sequences`: by `Inv`, either way of recording is the model's `record`
+        cases hh : PyParse.seqsHas p.seqs (p.text.length : Int)
+        all_goals first
+          | simp only [hh, set_absent hi _ hh, bindOk, record_with, Bool.false_eq_true, Bool.not_false, Bool.not_true, ↓reduceIte]
+          | simp only [hh, append_present hi _ hh, bindOk, record_with, Bool.false_eq_true, Bool.not_false, Bool.not_true, ↓reduceIte]
+        all_goals
+          have hr2 := List.takeWhile_append_dropWhile (p := isParam) (l := r)
+          generalize r.takeWhile isParam = tw at hr2 ⊢
+          cases hd : r.dropWhile isParam with
+          | nil =>
+            rw [hd, List.append_nil] at hr2
+            subst hr2
+            -- the cursor is at the end of the input
+            have hm : (((pre ++ (Gen.csi ++ tw)).length : Nat) : Int) = (((pre ++ Gen.csi ++ tw).length : Nat) : Int) := by simp
+            have hn : ((pre.length + (2 + tw.length) : Nat) : Int) = (((pre ++ Gen.csi ++ tw).length : Nat) : Int) := by
+              simp [hcl] <;> omega
+            rw [hm, hn]
+            generalize (((pre ++ Gen.csi ++ tw).length : Nat) : Int) = n
+            unfold finish
+            cases acc with
+            | none => cases allow <;> simp [accept_none_nil, Parsed.push, bindOk]
+            | some a => cases allow <;> simp [accept_some_nil, strIn_nil, Parsed.push, bindOk]
+          | cons c r' =>
+            rw [hd] at hr2
+            subst hr2
+            rw [getIdx_at (pre ++ Gen.csi ++ tw) c r' (by simp) rfl]
+            -- the cursor is before the end of the input
+            have hnm : (((pre ++ Gen.csi ++ tw).length : Nat) : Int) < (((pre ++ (Gen.csi ++ (tw ++ c :: r'))).length : Nat) : Int) := by
+              simp; omega
+            have hn : ((pre.length + (2 + tw.length + 1) : Nat) : Int) = (((pre ++ Gen.csi ++ tw).length : Nat) : Int) + 1 := by
+              simp [hcl] <;> omega
+            rw [hn]
+            generalize (((pre ++ Gen.csi ++ tw).length : Nat) : Int) = n at hnm ⊢
+            generalize (((pre ++ (Gen.csi ++ (tw ++ c :: r'))).length : Nat) : Int) = m at hnm ⊢
+            have hnm' : ¬ (m ≤ n) := by omega
+            unfold finish
+            cases acc with
+            | none => simp [accept_none_one, Parsed.push, bindOk, hnm, hnm']
+            | some a => cases hs : PyParse.strIn [c] a <;> simp [accept_some_one, hs, Parsed.push, bindOk, hnm, hnm']
+      · have hne : (rest.take 2 == Gen.csi) = false := by simpa using hcsi
+        simp only [hne, hcsi, Bool.false_eq_true, ↓reduceIte]
+        cases rest with
+        | nil => exact absurd rfl hr
+        | cons c r =>
+          simp only [getIdx_mid, bindOk]
+          simp [Parsed.push]
+  rfl
+
+/-- THE GENERATED `formatted_str` IS THE MODEL'S `Parsed.formatted`, on any object -/
+theorem formatted_is_code (p : Parsed) : Gen.formattedStr p = .ok p.formatted := by
+  unfold Gen.formattedStr
+  simp only []
+  rw [show ((0 : Int), ([] : Str)) = (((0 : Nat) : Int), ([] : Str)) from rfl, fold_fmt (text := p.text) ?spec]
+  case spec =>
+    intro last o k vs
+    simp only [slice_nat]
+    rw [fold_vals ?vspec]
+    case vspec => intro o v; simp [render]
+    simp [fmtRound, render, Parsed.formatted.pySliceL, bindOk]
+  simp only [bindOk, slice_from, formatted_eq]
+
+/-- `str(p)` / `repr(p)` / `p.formatted_str` of the object `__init__` leaves is the input (C19.tokenize_lossless
+    read over the generated functions) -/
+theorem formatted_of_tokenize (s : Str) (allow : Bool) (acc : Option Str) (fuel : Nat) (hf : s.length ≤ fuel) :
+    (Gen.tokenizeInit fuel s allow acc).bind Gen.formattedStr = .ok s := by
+  rw [tokenize_is_code s allow acc fuel hf, bindOk, formatted_is_code, tokenize_lossless]
+
+theorem tokenize_never_raises (s : Str) (allow : Bool) (acc : Option Str) (fuel : Nat) (hf : s.length ≤ fuel) (err : Exc) :
+    Gen.tokenizeInit fuel s allow acc ≠ .error err := by
+  rw [tokenize_is_code s allow acc fuel hf]; intro e; cases e
+
+theorem formatted_never_raises (p : Parsed) (err : Exc) : Gen.formattedStr p ≠ .error err := by
+  rw [formatted_is_code]; intro e; cases e
+
+/-- the hypothesis on the fuel is sharp: one round per character is needed -/
+theorem tokenize_needs_fuel : Gen.tokenizeInit 3 "abcd".toList true none = .error .outside := by decide +kernel
+
+/-! ## Concrete values -/
+
+private def tok (s : String) (allow : Bool := true) (acc : Option String := none) : Except Exc Parsed :=
+  Gen.tokenizeInit s.length s.toList allow (acc.map String.toList)
+private def sq (a b : String) : CtlSeq := ⟨a.toList, b.toList⟩
+
+example : tok "a\x1b[1mb" = .ok ⟨"ab".toList, [(1, [sq "1" "m"])]⟩ := by decide +kernel
+example : tok "\x1b[2Jx" = .ok ⟨"x".toList, [(0, [sq "2" "J"])]⟩ := by decide +kernel
+/-- an unterminated sequence at the end of the input: recorded with an empty terminator, or put back -/
+example : tok "a\x1b[" = .ok ⟨"a".toList, [(1, [sq "" ""])]⟩ := by decide +kernel
+example : tok "a\x1b[" false = .ok ⟨"a\x1b[".toList, []⟩ := by decide +kernel
+example : tok "\x1b[1;3" = .ok ⟨[], [(0, [sq "1;3" ""])]⟩ := by decide +kernel
+example : tok "\x1b[1;3" false = .ok ⟨"\x1b[1;3".toList, []⟩ := by decide +kernel
+/-- adjacent sequences share a position -/
+example : tok "x\x1b[1m\x1b[2my" = .ok ⟨"xy".toList, [(1, [sq "1" "m", sq "2" "m"])]⟩ := by decide +kernel
+/-- no parameters, terminated: recorded whatever `allow_empty_terminator` says -/
+example : tok "\x1b[mz" = .ok ⟨"z".toList, [(0, [sq "" "m"])]⟩ := by decide +kernel
+example : tok "\x1b[mz" false = .ok ⟨"z".toList, [(0, [sq "" "m"])]⟩ := by decide +kernel
+/-- a set of acceptable terminators: `J` is not in it, the sequence stays in the text; the empty terminator
+    is "in" any string -/
+example : tok "a\x1b[1mb\x1b[2Jc" true (some "m") = .ok ⟨"ab\x1b[2Jc".toList, [(1, [sq "1" "m"])]⟩ := by decide +kernel
+example : tok "a\x1b[1mb" true (some "") = .ok ⟨"a\x1b[1mb".toList, []⟩ := by decide +kernel
+example : tok "a\x1b[" true (some "m") = .ok ⟨"a".toList, [(1, [sq "" ""])]⟩ := by decide +kernel
+/-- and back -/
+example : Gen.formattedStr ⟨"xy".toList, [(1, [sq "1" "m", sq "2" "m"])]⟩ = .ok "x\x1b[1m\x1b[2my".toList := by decide +kernel
+example : Gen.formattedStr ⟨"ab".toList, [(0, [sq "2" "J"]), (2, [sq "" ""])]⟩ = .ok "\x1b[2Jab\x1b[".toList := by decide +kernel
+
+/-- the outcomes the theorems exclude are real ones of the primitives -/
+example : PyParse.seqsAppend [] 0 (sq "1" "m") = .error .key := by decide
+example : PyParse.seqsSet [] (-1) [] = .error .outside := by decide
+example : PyParse.ordStr "ab".toList = .error (.py .typeError) := by decide
+example : Py.getIdx "ab".toList 2 = .error (.py .indexError) := by decide
+
 end C19c
+
+#print axioms C19c.translated
+#print axioms C19c.tokenize_is_code
+#print axioms C19c.formatted_is_code
+#print axioms C19c.formatted_of_tokenize
+#print axioms C19c.tokenize_never_raises
+#print axioms C19c.formatted_never_raises
+#print axioms C19c.tokenize_needs_fuel
